@@ -62,6 +62,12 @@ func runC35(r *Run) {
 		case id == -2: // unsupported: something other than routes changes
 			c.Config.Lite.Routes = cloneRoutes(routeSets[1])
 			c.Config.Bind = "0.0.0.0:25577"
+		case id == -3: // unsupported as well: a section outside the Java config changes (with a route change)
+			c.Config.Lite.Routes = cloneRoutes(routeSets[2])
+			c.HealthService.Enabled = true
+		case id == -4: // ... or without any route change
+			c.Config.Lite.Routes = cloneRoutes(routeSets[0])
+			c.NoAutoReload = true
 		}
 		return &c
 	}
@@ -97,7 +103,7 @@ func runC35(r *Run) {
 		}
 		plans := make([]plan, nOps)
 		for i := range plans {
-			plans[i] = plan{kind: r.W.Pick(4), cand: []int{0, 1, 2, 3, -1, -2, 1, 2}[r.W.Pick(8)], stale: r.W.Pick(3)}
+			plans[i] = plan{kind: r.W.Pick(4), cand: []int{0, 1, 2, 3, -1, -2, 1, 2, -3, -4}[r.W.Pick(10)], stale: r.W.Pick(3)}
 		}
 		s.GoNamed(fmt.Sprintf("caller%d", a), func() {
 			defer func() { done++ }()
@@ -178,7 +184,7 @@ func runC35(r *Run) {
 					return "unchanged", state
 				case in.cand == -1:
 					return "invalid", state
-				case in.cand == -2:
+				case in.cand <= -2:
 					return "unsupported", state
 				default:
 					return "applied", in.cand
